@@ -76,6 +76,24 @@ pub fn generate(profile: &str, seed: u64, index: u64) -> Generated {
                 nontrivial: o.nontrivial,
             }
         }
+        "alloc" => {
+            let case = crate::alloc::generate(seed);
+            let kinds = vec![
+                format!("family:{}", case.family),
+                format!("aliases:{}", case.events.iter().filter(|e| e.1.contains(":=") && e.1.starts_with("alias")).count()),
+                format!("failing-op:{}", case.events.iter().any(|e| e.1.contains("boom=")) as u8),
+            ];
+            let nontrivial = !case.events.is_empty();
+            Generated {
+                script: Script {
+                    cfg: RunCfg::default(),
+                    stmts: Vec::new(),
+                    alloc: Some(case),
+                },
+                kinds,
+                nontrivial,
+            }
+        }
         "sweep" | "sweep-full" => {
             let o = gen_fault::generate(seed, index, profile == "sweep-full");
             Generated {
@@ -144,6 +162,13 @@ fn hash_str(s: &str) -> u64 {
 }
 
 pub fn rendered(script: &Script) -> Vec<String> {
+    if let Some(c) = &script.alloc {
+        let mut out = vec![format!("# allocation family `{}`, sizes n = {}, {}, {}", c.family, c.n0, 2 * c.n0, 4 * c.n0)];
+        out.extend(c.setup.iter().map(|s| format!("setup:  {}", s)));
+        out.extend(c.mutate.iter().map(|s| format!("mutate: {}   (cycled n times)", s)));
+        out.extend(c.events.iter().map(|(f, s)| format!("event at {}/16 of the phase: {}", f, s)));
+        return out;
+    }
     script.stmts.iter().map(|s| crate::ir::render_top(&s.ex)).collect()
 }
 
@@ -479,6 +504,7 @@ pub fn profiles_for(property: &str, tier: &str) -> Vec<(&'static str, u64)> {
     let nb = gen_fault::global_names().len() as u64;
     match property {
         "C01" => vec![("alias", if thorough { 3_000_000 } else { 200_000 })],
+        "C02" => vec![("alloc", if thorough { 40_000 } else { 2_500 })],
         "C05" => vec![("flow", if thorough { 2_000_000 } else { 120_000 })],
         "C09" => vec![("dict", if thorough { 3_000_000 } else { 200_000 })],
         "C11" => vec![("stream", if thorough { 3_000_000 } else { 200_000 })],
